@@ -879,6 +879,17 @@ func (x *exec) startWrite(peer string) {
 	}()
 }
 
+// scribble: the address ReadFrom returns is the caller's, as with net.UDPConn.ReadFrom; this application
+// re-uses it as scratch space.
+func scribble(from net.Addr) {
+	if ua, ok := from.(*net.UDPAddr); ok {
+		ua.Port = 9
+		for i := range ua.IP {
+			ua.IP[i] = 0xEE
+		}
+	}
+}
+
 func (x *exec) startRead(many int) {
 	now := time.Now()
 	rd := &rcall{startedAt: now, startedExpired: x.m.expired(now), startedClosed: x.m.closed(), many: many}
@@ -894,6 +905,7 @@ func (x *exec) startRead(many int) {
 				if from != nil {
 					r.from = from.String()
 				}
+				scribble(from)
 			}
 			out = append(out, r)
 		}
